@@ -53,7 +53,8 @@ class Lattice(object):
 
 class Run(object):
     """one recorded execution: interning of vectors to ids, the events, the scripted random"""
-    def __init__(self, lat, kind, tables, targets, ret_array=False):
+    def __init__(self, lat, kind, tables, targets, ret_array=False, inplace=False):
+        self.inplace = inplace              # members write the result into their argument and return it
         self.lat, self.kind, self.tables = lat, kind, tables
         self.ids = {p: i + 1 for i, p in enumerate(lat.points)}     # lattice points first
         self.vecs = list(lat.points)
@@ -85,6 +86,12 @@ class Run(object):
             out = list(self.lat.points[T[self.lat.snap(xin)]])
             self.ev.append({"t": "call", "i": i, "a": self.vid(xin), "b": self.vid(out)})
             self.cur = xin if self.kind == "not" else out
+            if self.inplace:                # a constraint that modifies its argument in place (as generated ones do)
+                try:
+                    x[:] = out
+                    return x
+                except TypeError:
+                    pass
             if self.ret_array:
                 import numpy
                 return numpy.array(out)
@@ -186,9 +193,9 @@ def scripted_random(mc, fake):
             setattr(mc, name, real)
 
 
-def execute(mc, lat, kind, tables, maxiter, x0, targets, sentinels=True, as_array=False, ret_array=False):
+def execute(mc, lat, kind, tables, maxiter, x0, targets, sentinels=True, as_array=False, ret_array=False, inplace=False):
     """run the real combinator once; returns the Run and the returned object"""
-    run = Run(lat, kind, tables, targets, ret_array=ret_array)
+    run = Run(lat, kind, tables, targets, ret_array=ret_array, inplace=inplace)
     kw = {}
     if maxiter is not None:
         kw["maxiter"] = maxiter
@@ -302,9 +309,11 @@ def scenarios(a):
 def record_all(mc, a, ck, scen):
     """run every scenario on the real code; returns the traces (with meta) that go to TLC"""
     traces = []
-    for (lat, kind, tabs, mi, s, tg, fl) in scen:
+    for nscen, (lat, kind, tabs, mi, s, tg, fl) in enumerate(scen):
         x0 = lat.points[s]
-        run, res = execute(mc, lat, kind, tabs, mi, x0, tg, True, fl.get("as_array", False), fl.get("ret_array", False))
+        fl = dict(fl, inplace=(nscen % 3 == 1 and not fl.get("ret_array", False)))   # every third run: in-place members
+        run, res = execute(mc, lat, kind, tabs, mi, x0, tg, True, fl.get("as_array", False), fl.get("ret_array", False),
+                           fl["inplace"])
         meta = {"kind": kind, "tables": tabs, "maxiter": mi, "x0": list(x0), "targets": tg, "dim": lat.dim,
                 "flags": fl, "vectors": [list(v) for v in run.vecs], "rawdraws": run.rawdraws[:40]}
         desc = "%s_(%s) maxiter=%s x0=%s" % (kind, ", ".join(str(t) for t in tabs), mi, list(x0))
@@ -320,7 +329,8 @@ def record_all(mc, a, ck, scen):
         for p in run.problems:
             ck.violation("%s_:unexpected-use-of-random" % kind, dict(meta, problem=p), "%s: %s" % (desc, p))
         # the same run without sentinels returns the same vector (default onexit/onfail = None)
-        run2, res2 = execute(mc, lat, kind, tabs, mi, x0, tg, False, fl.get("as_array", False), fl.get("ret_array", False))
+        run2, res2 = execute(mc, lat, kind, tabs, mi, x0, tg, False, fl.get("as_array", False), fl.get("ret_array", False),
+                             fl["inplace"])
         try:
             same = [float(v) + 0.0 for v in res2] == [float(v) + 0.0 for v in res]
         except Exception:
